@@ -217,6 +217,9 @@ func mutate(r *rng.R, fr fieldRef) string {
 		cands := []int64{0, -1, 1, cur + 1, cur - 1, cur * 10, cur / 10, cur + 10, 9, 10, 99, 100, 200, 220, 225, 280, 999,
 			pow10(r.Range(1, 12)) - 1, pow10(r.Range(1, 12)), -cur, 21 + int64(r.Intn(40)), 80 + int64(r.Intn(10))}
 		v := rng.Pick(r, cands)
+		if r.Chance(1, 4) { // the field-inclusion rules: a zero value
+			v = 0
+		}
 		fv.SetInt(v)
 		return strconv.FormatInt(v, 10)
 	}
@@ -234,6 +237,9 @@ func mutate(r *rng.R, fr fieldRef) string {
 		cands = append(cands, string(m), string(m), string(m))
 	}
 	v := rng.Pick(r, cands)
+	if r.Chance(1, 5) { // the field-inclusion rules: an empty value
+		v = ""
+	}
 	fv.SetString(v)
 	return v
 }
